@@ -1983,6 +1983,126 @@ def rule_list(ctx):
     return r
 
 
+def _queue_entry_level(ctx, r, Q, full):
+    """Clauses of the pops stated on the paths of try_pop_if / try_pop themselves (all private queue functions inlined, the
+    retry loop unrolled twice). Always: the predicate clause. With `full` (an internal anchor is gone): operands, ok/err arms
+    and the meaning of a None result as well. -> number of head CASes judged"""
+    prog = ctx.prog
+    priv = {nm for nm, b in prog.bodies.items() if nm.startswith(Q) and b.kind != "closure"
+            and nm.split("::")[-1] not in ("try_pop", "try_pop_if", "push", "new")}
+    exe = Exec(prog, inline=priv, unroll=2)
+    judged = 0
+    for wname, need_pred in ((Q + "try_pop_if", True), (Q + "try_pop", False)):
+        wb = prog.body(wname)
+        r.functions.add(wname)
+        for p in exe.paths(wb):
+            if p.exit[0] == "diverge":
+                continue
+            r.paths += 1
+            ev = p.events
+            loads = [(i, e) for i, e in enumerate(ev) if e.kind == "call" and norm(e.target or "") == "ebr_impl::pointers::RawAtomic::load"]
+            cas = [(i, e) for i, e in enumerate(ev) if e.kind == "call" and
+                   norm(e.target or "") in ("ebr_impl::pointers::RawAtomic::compare_exchange",
+                                            "ebr_impl::pointers::RawAtomic::compare_exchange_weak")
+                   and outer_field(e.args[0]) == "Queue.head"]
+            preds = [(i, e) for i, e in enumerate(ev) if e.kind == "call" and "Fn" in (e.target or "") and "call" in (e.target or "")
+                     and any(isinstance(x, tuple) and x[0] == "arg" and x[1] == 2 for x in subterms(e.args[0]))] if need_pred else []
+            reads = [(i, e) for i, e in enumerate(ev) if e.kind == "call" and "assume_init_read" in (e.target or "")]
+            retire = [(i, e) for i, e in enumerate(ev) if e.kind == "call" and e.target == "ebr_impl::guard::Guard::defer_destroy"]
+            for k, (ci, ce) in enumerate(cas):
+                judged += 1
+                installed = strip(ce.args[2])
+                expected = strip(ce.args[1])
+                lim = cas[k + 1][0] if k + 1 < len(cas) else len(ev)
+                if need_pred:
+                    okp = False
+                    for (pi_, pe) in preds:
+                        if pi_ > ci or len(pe.args) < 2:
+                            continue
+                        val = [q for q in ev[pi_:ci] if q.kind == "cond" and q.term == pe.result]
+                        if val and val[0].value == 1 and installed in list(subterms(pe.args[1])):
+                            okp = True
+                    r.instance("try_pop_if: the node a head CAS installs is the very node (same load) the predicate held for", okp)
+                    if not okp:
+                        r.violate(wname, "predicate", "the head is swung to a node for which the predicate was not evaluated to "
+                                  "true (on that very node, without reloading in between)", ce.loc())
+                if not full:
+                    continue
+                head_l = [l for l in loads if outer_field(l[1].args[0]) == "Queue.head" and l[0] < ci and l[1].result == expected]
+                next_l = [l for l in loads if outer_field(l[1].args[0]) == "Node.next" and l[0] < ci and l[1].result == installed]
+                ok = bool(head_l) and bool(next_l) and expected in list(subterms(next_l[-1][1].args[0]))
+                r.instance("%s: the head CAS expects a loaded head and installs the next loaded from it" % wname.split("::")[-1], ok)
+                if not ok:
+                    r.violate(wname, "cas-operands", "the head CAS does not expect the loaded head / install the next loaded from it",
+                              ce.loc())
+                out = ctx.cas_outcome(p, ce.result, ci)
+                rd = [x for x in reads if ci < x[0] < lim]
+                rt = [x for x in retire if ci < x[0] < lim]
+                if out == "ok":
+                    ok = len(rd) == 1 and len(rt) == 1 and strip(rt[0][1].args[1]) == expected and \
+                        installed in list(subterms(rd[0][1].args[0]))
+                    r.instance("%s: CAS ok -> read the installed node's data once, retire the old head once" % wname.split("::")[-1], ok)
+                    if not ok:
+                        r.violate(wname, "ok-arm", "on CAS success the element must be read once and the old head retired once", ce.loc())
+                    else:
+                        ri = rt[0][0]
+                        tl = [l for l in loads if outer_field(l[1].args[0]) == "Queue.tail" and ci < l[0] < ri]
+                        cmp_ = [q for q in ev[ci:ri] if q.kind == "cond" and isinstance(q.term, tuple) and q.term[0] == "call"
+                                and norm(q.term[1]) == "ebr_impl::pointers::RawShared::ptr_eq" and tl and
+                                {strip(q.term[2][0]), strip(q.term[2][1])} == {expected, tl[-1][1].result}]
+                        okt = bool(tl) and bool(cmp_)
+                        if okt and cmp_[0].value == 1:
+                            okt = any(q.kind == "call" and norm(q.target or "").startswith("ebr_impl::pointers::RawAtomic::compare_exchange")
+                                      and outer_field(q.args[0]) == "Queue.tail" for q in ev[ci:ri])
+                        r.instance("%s: the tail is moved off the old head before it is retired" % wname.split("::")[-1], okt)
+                        if not okt:
+                            r.violate(wname, "retires-tail", "the old head is retired without making sure the tail does not point at "
+                                      "it (load tail after the head CAS, compare, swing it where equal): a pusher that loads the tail "
+                                      "is handed a node that is freed three epochs later", rt[0][1].loc())
+                    if p.exit[0] == "retry" or (k + 1 < len(cas)):
+                        r.violate(wname, "retry", "retries although the attempt succeeded (element dropped)", ce.loc())
+                elif out == "err":
+                    ok = not rd and not rt
+                    r.instance("%s: CAS failed -> nothing read or retired" % wname.split("::")[-1], ok)
+                    if not ok:
+                        r.violate(wname, "err-arm", "an element is read or a node retired although the head CAS failed (element "
+                                  "popped twice / node freed while reachable)", ce.loc())
+                elif rd or rt:
+                    r.violate(wname, "err-arm", "an element is read or a node retired without the outcome of the head CAS having "
+                              "been examined (element popped twice / node freed while reachable)", ce.loc())
+                else:
+                    raise AnalysisError("EBR-QUEUE: CAS outcome undecided in %s" % wname)
+            if not full or p.exit[0] != "return":
+                continue
+            # what a returning path may say: Some(data read after the successful CAS), or None - and None only as the verdict of
+            # an observation made after the last lost race: the loaded next is null, or the predicate failed on it
+            succ = [c for c in cas if ctx.cas_outcome(p, c[1].result, c[0]) == "ok"]
+            if succ:
+                continue
+            if not cas and not loads:
+                r.violate(wname, "wrapper", "returns without an attempt", wb.loc(0))
+                continue
+            last_cas = cas[-1][0] if cas else -1
+            nl = [l for l in loads if outer_field(l[1].args[0]) == "Node.next" and l[0] > last_cas]
+            verdict = False
+            for (li, le) in nl:
+                nullt = [q for q in ev[li:] if q.kind == "cond" and le.result in list(subterms(q.term)) and
+                         ((q.term[0] == "disc" and (q.value == 0 or (isinstance(q.value, tuple) and q.value[0] == "not"
+                                                                      and 1 in q.value[1]))) or
+                          (isinstance(q.term, tuple) and q.term[0] == "call" and norm(q.term[1]).endswith("::is_null") and q.value == 1) or
+                          (isinstance(q.term, tuple) and q.term[0] == "call" and norm(q.term[1]).endswith("::is_some") and q.value == 0))]
+                pf = [pe for (pi_, pe) in preds if pi_ > li and le.result in list(subterms(pe.args[1]))
+                      and any(q.kind == "cond" and q.term == pe.result and q.value == 0 for q in ev[pi_:])]
+                if nullt or pf:
+                    verdict = True
+            r.instance("%s: None is the verdict of an observation made after the last lost race" % wname.split("::")[-1], verdict)
+            if not verdict:
+                r.violate(wname, "lost-race", "returns None after an attempt that lost the race (or without looking): a lost race "
+                          "for the head is reported as `empty / predicate failed` although the queue may hold elements that "
+                          "satisfy the predicate", wb.loc(0))
+    return judged
+
+
 def outer_field(term):
     """Name of the outermost field of an address term (through CachePadded deref)."""
     t = strip(term)
@@ -2069,7 +2189,14 @@ def rule_queue(ctx):
     if nends < 3 and not r.violations:
         r.floor_failures.append("EBR-QUEUE: found %d writes of the queue's ends, expected at least 3 (anchor lost?)" % nends)
     exq = Exec(prog, inline={Q + "pop_internal", Q + "pop_if_internal", Q + "push_internal"})
+    # entry level first: the conditional pop as collect() calls it, with everything the queue keeps private read inlined and
+    # the retry loop unrolled - whatever the internal split into functions is (S-C17-7 removed pop_if_internal)
+    missing_internal = [fn for fn in (Q + "pop_if_internal", Q + "pop_internal") if fn not in prog.bodies]
+    n += _queue_entry_level(ctx, r, Q, full=bool(missing_internal))
     for fname, need_pred in ((Q + "pop_if_internal", True), (Q + "pop_internal", False)):
+        if fname in missing_internal:
+            r.notes.append("%s does not exist: its clauses were judged on the paths of the wrappers (entry level)" % fname)
+            continue
         b = prog.body(fname)
         r.functions.add(fname)
         for p in exq.paths(b):
@@ -2252,6 +2379,9 @@ def rule_queue(ctx):
     # `None` may be returned only as the Ok payload of the last attempt
     nw = 0
     for wname, inner in ((Q + "try_pop", Q + "pop_internal"), (Q + "try_pop_if", Q + "pop_if_internal")):
+        if missing_internal:
+            nw += 1       # judged at entry level (clause `none-return`)
+            continue
         wb = prog.body(wname)
         r.functions.add(wname)
         exw = Exec(prog, inline=set())
